@@ -339,6 +339,26 @@ pub fn run(ctx: &Ctx, out: &mut Out) {
             extra.push((format!("missing-{}-with-client_stats", missing), Written { pairs: p2, via_env }, true, None));
         }
         extra.push(("minimal-valid".into(), Written { pairs: base.clone(), via_env }, false, Some(("port", json!(port)))));
+        // dependencies between two settings: a value that coincides with another setting's value
+        // is still the value written (health check is TCP, time service UDP: the same number is legal)
+        {
+            let ps = port.to_string();
+            let same: Vec<(&str, &str, String)> = vec![
+                ("health_check_port", "port", ps.clone()),
+                ("status_interval", "port", ps.clone()),
+                ("batch_size", "num_workers", "7".into()),
+                ("batch_size", "fault_percentage", "50".into()),
+                ("num_workers", "fault_percentage", "3".into()),
+                ("status_interval", "batch_size", "64".into()),
+                ("status_interval", "health_check_port", ps.clone()),
+            ];
+            for (a, b, v) in same {
+                let p = with(with(base.clone(), a, &v), b, &v);
+                let n: u64 = v.parse().unwrap();
+                extra.push((format!("{}-equals-{} getter={}", a, b, a), Written { pairs: p.clone(), via_env }, false, Some((a, json!(n)))));
+                extra.push((format!("{}-equals-{} getter={}", a, b, b), Written { pairs: p, via_env }, false, Some((b, json!(n)))));
+            }
+        }
         extra.push(("seed-roundtrip".into(), Written { pairs: base.clone(), via_env }, false, Some(("seed", json!(hex(&seed))))));
         extra.push(("seed-uppercase".into(), Written { pairs: with(base.clone(), "seed", &hex(&seed).to_uppercase()), via_env }, false, Some(("seed", json!(hex(&seed))))));
         for (name, s) in [
